@@ -47,21 +47,23 @@ func iteByte(c bool, a, b byte) byte {
 	return b
 }
 
-func inPos(r io.Reader) int                  { return 0 }
-func inEnd(r io.Reader) int                  { return 0 }
-func inByte(r io.Reader, i int) byte         { return 0 }
-func inErr(r io.Reader) error                { return nil }
-func inPosB(r io.ByteReader) int             { return 0 }
-func inEndB(r io.ByteReader) int             { return 0 }
-func inByteB(r io.ByteReader, i int) byte    { return 0 }
-func inErrB(r io.ByteReader) error           { return nil }
-func outLen(w io.Writer) int                 { return 0 }
-func outCalls(w io.Writer) int               { return 0 }
-func outByte(w io.Writer, i int) byte        { return 0 }
-func sameBase(a, b []byte) bool              { return false }
-func sameSlice(a, b []byte) bool             { return false }
+func inPos(r io.Reader) int               { panic("ghost: inPos is not executable") }
+func inEnd(r io.Reader) int               { panic("ghost: inEnd is not executable") }
+func inByte(r io.Reader, i int) byte      { panic("ghost: inByte is not executable") }
+func inErr(r io.Reader) error             { panic("ghost: inErr is not executable") }
+func inPosB(r io.ByteReader) int          { panic("ghost: inPosB is not executable") }
+func inEndB(r io.ByteReader) int          { panic("ghost: inEndB is not executable") }
+func inByteB(r io.ByteReader, i int) byte { panic("ghost: inByteB is not executable") }
+func inErrB(r io.ByteReader) error        { panic("ghost: inErrB is not executable") }
+func outLen(w io.Writer) int              { panic("ghost: outLen is not executable") }
+func outCalls(w io.Writer) int            { panic("ghost: outCalls is not executable") }
+func outByte(w io.Writer, i int) byte     { panic("ghost: outByte is not executable") }
+func sameBase(a, b []byte) bool           { panic("ghost: sameBase is not executable") }
+func sameSlice(a, b []byte) bool {
+	return len(a) == len(b) && (a == nil) == (b == nil) && (len(a) == 0 || &a[0] == &b[0])
+}
 func notPartOf(b []byte, x interface{}) bool { return true }
-func freshObj(x interface{}) bool            { return true }
+func freshObj(x interface{}) bool            { panic("ghost: freshObj is not executable") }
 
 var _ = ws.StateServerSide
 
@@ -357,7 +359,7 @@ func cbufByte(c *cbuf, j int) byte {
 //@   assigns c.n, c.err, c.buf, c.dst
 
 //@ func cbuf.Write
-//@   props C12 C15
+//@   props C12
 //@   requires [inv]    invCbuf(c) && notPartOf(p, c) && outLen(c.dst)+len(p) < 1<<60
 //@   ensures  [sticky] old(c.err) != nil ==> result0 == 0 && result1 == old(c.err) && outLen(c.dst) == old(outLen(c.dst)) && c.n == old(c.n) && c.buf == old(c.buf)
 //@   ensures  [ret]    old(c.err) == nil ==> result0 == len(p) && result1 == c.err
